@@ -124,7 +124,11 @@ def _run_cat(job):
         return {"case": c, "applied": False}
     wb = cat.to_wb(m)
     fmt = job.get("fmt", "dict")
-    inp, kw = render.render(wb, fmt)
+    try:
+        inp, kw = render.render(wb, fmt)
+    except Exception:  # noqa: BLE001 - a container format that cannot hold the mutated cell (e.g. a control character in xlsx): use the dict channel
+        fmt = "dict"
+        inp, kw = render.render(wb, fmt)
     res = conv.convert_case({"input": inp, "kwargs": kw, "events": False, "allow_malformed": True})
     msg = res.get("message") or ""
     low = msg.lower()
